@@ -69,6 +69,7 @@ Call ==
   /\ Is("call")
   /\ R.o \notin DOMAIN pend
   /\ R.h \in DOMAIN tx \cup DOMAIN rx
+  /\ R.op \in SendOps \cup RecvOps \cup LifeOps
   /\ (R.op \in SendOps => R.h \in DOMAIN tx)
   /\ (R.op \in RecvOps => R.h \in DOMAIN rx)
   /\ pend' = Put(pend, R.o, NewOp(R.h, R.op, R.vs, IF R.op \in SingleRecv THEN 1 ELSE R.max, R.fut))
@@ -105,7 +106,9 @@ Ret ==
          extra == dr \ unsent
      IN
      /\ p.lin = R.res
-     /\ IF p.op \in SendOps
+     /\ IF p.op \in LifeOps
+          THEN /\ R.vals = <<>> /\ R.back = <<>> /\ UNCHANGED out
+          ELSE IF p.op \in SendOps
           THEN /\ R.n = p.n
                /\ R.vals = <<>>
                \* C01: the unsent remainder is handed back intact and in order where
@@ -316,6 +319,8 @@ LinStep ==
         /\ aux' = [aux EXCEPT !.hoard = 0]
         /\ UNCHANGED devs
      \/ /\ \E s, r \in DOMAIN pend : Handoff(s, r)
+        /\ UNCHANGED <<devs, aux>>
+     \/ /\ \E o \in DOMAIN pend : LifeLin(o)
         /\ UNCHANGED <<devs, aux>>
      \/ /\ \E o \in DOMAIN pend : DevRecvAfterDisc(o)
         /\ aux' = [aux EXCEPT !.hoard = IF Dev("F12") THEN @ + 1 ELSE 0]
